@@ -438,7 +438,7 @@ func (w *Reconciler) syncCreateTask(
 			w.recorder.Eventf(rj, corev1.EventTypeWarning, "AdmissionError",
 				"Task already exists and cannot be adopted: %v", name)
 
-			return rj, tasks, nil
+			return newRj, tasks, nil
 		}
 
 		// Otherwise, simply add it to our list of tasks and move on.
